@@ -313,12 +313,19 @@ class C14(CheckBase):
             # with it; every other operation, the observer and the
             # sequential re-execution afterwards must be unaffected.
             ti = ch.choose(len(case["tasks"]))
-            mode = ch.weighted([(5, "access"), (3, "distinct"), (2, "raw")],
+            cached_ = any(s_["kind"] in ("cached", "cachedfile")
+                          for s_ in case["shared"])
+            mode = ch.weighted([(5, "access"), (3, "distinct"), (2, "raw"),
+                                (2, "creturn"),
+                                # (explicit lock.acquire() calls are in the
+                                # module loader, if anywhere)
+                                (6 if cached_ else 1, "acquire")],
                                "imode")
             case["interrupt"] = {
                 "task": ti, "opi": ch.choose(len(case["tasks"][ti])),
                 "mode": mode,
-                "nth": 1 + ch.choose(30 if mode == "access" else
+                "nth": 1 + ch.choose(4 if mode == "acquire" else
+                                     30 if mode in ("access", "creturn") else
                                      ch.pick([12, 60, 250])),
                 # (not MemoryError here: pool templates have tal:on-error
                 # elements and pipes, which rightly handle an Exception
@@ -866,7 +873,9 @@ class C14(CheckBase):
                             it = trace.Interrupt(
                                 intr["nth"], getattr(builtins, intr["exc"]),
                                 distinct=intr["mode"] == "distinct",
-                                access=intr["mode"] == "access")
+                                access=intr["mode"] == "access",
+                                creturn=intr["mode"] == "creturn",
+                                acquire_only=intr["mode"] == "acquire")
                             trace.arm_interrupt(it)
                         try:
                             r_ = self.do_op(objs, op, box)
@@ -1143,6 +1152,19 @@ class C14(CheckBase):
                 return {"harness": f"{fk}: {sched.failure}",
                         "violations": [], "digest": log.digest(),
                         "events": log.count}
+        else:
+            # every operation has returned: a lock of the library that is
+            # still held now is held for good - the next thread to need it
+            # would block (the concurrent phase just happened not to)
+            for t in sched.tasks:
+                for lk in getattr(t.proc, "locks", {}).values():
+                    if lk.owner is not None and lk.count > 0:
+                        violations.append({
+                            "kind": "deadlock", "sig": "deadlock",
+                            "detail": f"lock {lk.name} is still held by "
+                                      f"{getattr(lk.owner, 'name', lk.owner)}"
+                                      f" after all operations have returned"})
+                        lk.owner, lk.count = None, 0
         for t in sched.tasks:
             if t.exc is not None:
                 return {"harness": "task died: %r" % (t.exc,),
